@@ -150,6 +150,9 @@ def plan(tier, seed):
         shards.append({'name': 'soup-%d' % p, 'kind': 'soup', 'part': p,
                        'count': 20000 if thorough else 4000})
     shards.append({'name': 'codepoints', 'kind': 'cp', 'count': 20000 if thorough else 2000})
+    for engname in ('default', 'legacy', 'delegates'):
+        shards.append({'name': 'lrcov-' + engname, 'kind': 'lrcov', 'engine': engname,
+                       'count': 400000 if thorough else 40000})
     return shards
 
 
@@ -169,6 +172,8 @@ def run_shard(spec, rec):
             _soup(spec, mon, rec)
         elif kind == 'cp':
             _cp(spec, mon, rec)
+        elif kind == 'lrcov':
+            _lrcov(spec, mon, rec)
     finally:
         mon.close()
 
@@ -335,6 +340,76 @@ def _cp(spec, mon, rec):
         mon.check(text, 'codepoint')
         if i % 1000 == 0:
             rec.sample({'family': 'codepoint', 'codepoints': [ord(ch) for ch in text]})
+
+
+def _lrcov(spec, mon, rec):
+    """Feedback-directed exploration of the parser's LR automaton: the engine's own
+    ply parser object has its action table instrumented (hooks.LRCoverage); token
+    sequences that make the parser consult a (state, lookahead) pair not seen before -
+    a table entry or a syntax-error pair - are kept and mutated further.  The oracle is
+    the same Monitor.check as for every other family; the coverage reached is evidence."""
+    rng = rng_for(spec['seed'], 'c03', spec['name'])
+    engname = spec['engine']
+    eng = {'legacy': mon.leg, 'delegates': mon.deleg}.get(engname, mon.eng)
+    cov = hooks.LRCoverage(eng.parser)
+    alpha = token_alphabet(eng)
+    corpus = [[t] for t in alpha] + [_split_tokens(v) for v in VALID]
+    seen_n = 0
+    kept = 0
+    try:
+        for seq in list(corpus):
+            mon.check(' '.join(seq), 'lrcov-' + engname, eng, engname)
+        seen_n = len(cov.seen)
+        for i in range(spec['count']):
+            seq = list(rng.choice(corpus)) if rng.random() < 0.9 else [rng.choice(alpha)]
+            for _ in range(rng.choice((1, 1, 2, 3))):
+                op = rng.randrange(7)
+                pos = rng.randrange(len(seq) + 1)
+                if op == 0:
+                    seq.insert(pos, rng.choice(alpha))
+                elif op == 1 and seq:
+                    del seq[min(pos, len(seq) - 1)]
+                elif op == 2 and seq:
+                    seq[min(pos, len(seq) - 1)] = rng.choice(alpha)
+                elif op == 3:
+                    other = rng.choice(corpus)
+                    cut = rng.randrange(len(other) + 1)
+                    seq = seq[:pos] + other[cut:]
+                elif op == 4:
+                    o, c = rng.choice((('(', ')'), ('[', ']'), ('{', '}'), ('f(', ')'), ('$.x(', ')')))
+                    end = rng.randrange(pos, len(seq) + 1)
+                    seq = seq[:pos] + [o] + seq[pos:end] + [c] + seq[end:]
+                elif op == 5 and seq:
+                    a = min(pos, len(seq) - 1)
+                    b = rng.randrange(a, len(seq)) + 1
+                    seq = seq[:b] + seq[a:b] + seq[b:]
+                else:
+                    other = rng.choice(corpus)
+                    seq = seq[:pos] + [rng.choice(alpha)] + other
+            if len(seq) > 40:
+                seq = seq[:40]
+            text = (' ' if rng.random() < 0.8 else '').join(seq)
+            mon.check(text, 'lrcov-' + engname, eng, engname)
+            if len(cov.seen) > seen_n:
+                seen_n = len(cov.seen)
+                corpus.append(seq)
+                kept += 1
+                if kept % 50 == 1:
+                    rec.sample({'family': 'lrcov-' + engname, 'text': text, 'new_pairs_total': seen_n})
+    finally:
+        cov.restore()
+    rec.count('lrcov.%s.table_entries' % engname, len(cov.entries))
+    rec.count('lrcov.%s.table_entries_exercised' % engname, len(cov.hits()))
+    rec.count('lrcov.%s.error_pairs_exercised' % engname, len(cov.misses()))
+    rec.count('lrcov.%s.states_visited' % engname, len({s for s, _ in cov.seen}))
+    rec.count('lrcov.%s.states' % engname, len(cov.orig))
+    rec.count('lrcov.%s.corpus_kept' % engname, kept)
+
+
+def _split_tokens(text):
+    """rough token split of a valid expression (only used to seed the corpus)"""
+    import re as _re
+    return _re.findall(r"""'(?:[^'\\]|\\.)*'|"(?:[^"\\]|\\.)*"|`(?:[^`\\]|\\.)*`|\$\w*|\w+\(|\d+\.\d+|\w+|\.|=>|->|\?\.|[<>!=]=|=~|!~|\S""", text)
 
 
 def replay(data, rec):
